@@ -932,7 +932,20 @@ def r9(ctx):
             out[k] = [i.v for i in v.items] if isinstance(v, Tup) else (v.v if isinstance(v, Const) else show(v, 60))
         return out
 
-    for cname, recs in ASSEMBLY_CASES.items():
+    cases = dict(ASSEMBLY_CASES)
+    if getattr(ctx, '_assembly_enum', False):
+        # thorough tier: every list of 1..3 records over 3 frames x 6 metadata dictionaries
+        import itertools
+        metas = [{}, {'color': 'red'}, {'color': 'blue', 'width': '2'}, {'color': 'red', 'text': '{t}'},
+                 {'color': 'red', 'tag': ['a', 'b']}, {'width': '2', 'include': '0'}]
+        kinds = [(f, md) for f in ('image', 'fk5', 'galactic') for md in metas]
+        cases = {}
+        for k in (1, 2, 3):
+            for seq in itertools.product(range(len(kinds)), repeat=k):
+                cases[f'enum {seq}'] = [(kinds[i][0], ('-' if kinds[i][1].get('include') == '0' else '') + f'circle({j},{j},{j})',
+                                         dict(kinds[i][1])) for j, i in enumerate(seq, 1)]
+    nfail, firstfail = 0, None
+    for cname, recs in cases.items():
         it = iter([conv({'frame': f, 'region': r, 'meta': md}) for f, r, md in recs])
         regs = Tup(tuple(Obj('CirclePixelRegion', {}, f'r{i}', m.cls('CirclePixelRegion')) for i in range(len(recs))), 'list')
         ev = Evaluator(m, hooks={wfi.qualname: lambda e, a, k: next(it)})
@@ -977,11 +990,34 @@ def r9(ctx):
                     probs.append(f'region {i + 1} is written as `{g[1]}`, not `{w[1]}`')
                 if g[2] != w[2]:
                     probs.append(f'region {i + 1} reads back with metadata {g[2]}, it was given {w[2]}')
+        if getattr(ctx, '_assembly_enum', False):
+            if probs:
+                nfail += 1
+                firstfail = firstfail or (recs, probs, text)
+            continue
         if probs:
             ctx.bad(f'{ser.qualname.split(":")[1]}: {cname}', 'assembly', '; '.join(probs[:2]) + f' — output: {text!r}'[:400],
                     ser.loc())
         else:
             ctx.ok(f'{ser.qualname.split(":")[1]}: {cname}', f'{len(recs)} records recovered (frame, region text, effective metadata)')
+    if getattr(ctx, '_assembly_enum', False):
+        if nfail:
+            recs, probs, text = firstfail
+            ctx.bad(f'{ser.qualname.split(":")[1]}: enumeration', 'assembly',
+                    f'{nfail} of {len(cases)} enumerated region lists are not recovered from the written text, e.g. {recs}: '
+                    + '; '.join(probs[:2]) + f' — output: {text!r}'[:400], ser.loc())
+        else:
+            ctx.ok(f'{ser.qualname.split(":")[1]}: enumeration', f'{len(cases)} enumerated region lists (1..3 records over 3 frames x 6 '
+                   'metadata dictionaries) recovered')
+
+
+def r9b(ctx):
+    """the list-level assembly rule R9 on every list of up to three records (thorough tier)."""
+    ctx._assembly_enum = True
+    try:
+        r9(ctx)
+    finally:
+        ctx._assembly_enum = False
 
 
 class _SubCtx:
@@ -1240,6 +1276,7 @@ RULES = [
     RuleDef('R6', 'deterministic output', r6, 1),
     RuleDef('R7', 'serialisers do not mutate the regions', r7, 2),
     RuleDef('R9', 'list-level assembly: global/own metadata and frame lines recover every record', r9, 4),
+    RuleDef('R9b', 'list-level assembly on every list of 1..3 records over 3 frames x 6 metadata dictionaries', r9b, 1, tier='thorough'),
     RuleDef('R11', 'write -> parse of programmatic metadata (tags, label, solid/dashed, width, font, marker size) on probe dictionaries', r11, 8),
     RuleDef('R10', 'visual metadata: parse -> serialise -> parse fixed point on probe metadata', r10, 11),
     RuleDef('R8', 'text and tags: written delimiters are the ones lexed; free text is never coerced; bound to the region', r8, 5),
